@@ -84,7 +84,8 @@ func (f *ChangeClass) Call(s *slip.Scope, args slip.List, depth int) slip.Object
 					}
 				}
 				if !inited {
-					ti.vars[name] = sd.initform
+					// Unbound stays unbound, any other initform is a form.
+					ti.vars[name] = s.Eval(sd.initform, depth+1)
 				}
 			}
 		}
